@@ -314,3 +314,47 @@ Proof. apply create_loop_fuel. lia. Qed.
 (* a raw-memory variable makes _setup_log_elements raise TypeError when it is reached (F05a) *)
 Lemma setup_elems_mem v2 otc pk v vs : v_toc v = false -> setup_elems v2 otc pk (v :: vs) = Err TypeError.
 Proof. intros H. cbn [setup_elems]. now rewrite H. Qed.
+
+(* ------------------------------------------------------------------ protocol V1 (firmware protocol version < 4) *)
+(* entries are {u8 type; u8 index}; the code has no room test: always one message of 2 + 2n bytes *)
+Fixpoint fw_entries_v1 (l : list Z) : list (Z * Z) :=
+  match l with
+  | t :: i :: r => (t, i) :: fw_entries_v1 r
+  | _ => []
+  end.
+
+Definition enc_v1 (es : list (Z * Z)) : list Z := concat (map (fun e => [fst e; snd e]) es).
+
+Definition var_good_v1 (tc : toc) (v : var) : Prop :=
+  v_toc v = true /\ in_byte (type_byte v) = true /\
+  exists i, toc_element_id tc (v_name v) = Some i /\ 0 <= i < 256.
+
+Lemma fw_entries_v1_enc es : fw_entries_v1 (enc_v1 es) = es.
+Proof. induction es as [|[t i] es IH]; [reflexivity|]. unfold enc_v1 in *. cbn. now rewrite IH. Qed.
+
+Lemma enc_v1_length es : length (enc_v1 es) = (2 * length es)%nat.
+Proof. induction es as [|e es IH]; [reflexivity|]. unfold enc_v1 in *. cbn [map concat app length]. rewrite IH. lia. Qed.
+
+Lemma setup_elems_v1 tc : forall vs pk, Forall (var_good_v1 tc) vs ->
+  setup_elems false (Some tc) pk vs = Ok (true, [], pk ++ enc_v1 (map (entry_of tc) vs)).
+Proof.
+  induction vs as [|v vs IH]; intros pk H.
+  - cbn. now rewrite app_nil_r.
+  - inversion H as [|x y (Ht & Hb & i & Hi & Hr) Hvs]; subst.
+    cbn [setup_elems]. rewrite Ht. cbn [negb]. cbv zeta. rewrite Hb, Hi. cbn [negb].
+    replace (in_byte i) with true by (unfold in_byte; lia).
+    rewrite IH by exact Hvs. unfold enc_v1. cbn [map concat entry_of fst snd].
+    unfold ident_of. rewrite Hi. rewrite <- !app_assoc. reflexivity.
+Qed.
+
+Lemma create_messages_v1 tc id vs : Forall (var_good_v1 tc) vs ->
+  let msg := [g_cmd_create; id] ++ enc_v1 (map (entry_of tc) vs) in
+  create_msgs false (Some tc) id vs = ([OWire 5 g_chan_settings msg [g_cmd_create; id]], None) /\
+  fw_entries_v1 (skipn 2 msg) = map (entry_of tc) vs /\
+  length msg = (2 + 2 * length vs)%nat.
+Proof.
+  intros H. cbn zeta. unfold create_msgs, create_cmd. cbn [create_loop].
+  rewrite setup_elems_v1 by exact H. repeat split.
+  - cbn [app skipn]. apply fw_entries_v1_enc.
+  - cbn [app length]. rewrite enc_v1_length, map_length. lia.
+Qed.
